@@ -147,6 +147,14 @@ def gen(rng, passes):
     for p in info["pots"]:
         if "@first" in p["name"]:
             continue
+        if rng.random() < 0.25:
+            # a comprehension that reads the input once per element: three conversions, three (possibly different) values
+            body.append(f"mon.write(\"@AC:{p['name']}\")")
+            body.append(f"win = [{p['name']}.read() for _ in range(3)]")
+            body.append("mon.write(win[2])")
+    for p in info["pots"]:
+        if "@first" in p["name"]:
+            continue
         if rng.random() < 0.3:
             # two reads in one parallel assignment are two conversions
             body.append(f"mon.write(\"@A:{p['name']}\")")
@@ -275,7 +283,19 @@ def monitor(events, info, passes):
                 last = int(f[1])
             if kind == "SER":
                 text = trace.unesc(f[0])
-                if text == f"@A2:{p['name']}":
+                if text == f"@AC:{p['name']}":
+                    waiting = "comp"
+                    fresh = 0
+                elif waiting == "comp":
+                    waiting = False
+                    counts["pot_reads"] += 3
+                    want = vals[idx + 2] if idx + 2 < len(vals) else vals[-1]
+                    idx += 3
+                    if fresh != 3:
+                        problems.append(("pot-fresh-read", f"{p['name']}: {fresh} analogRead events for a 3-element comprehension of read() calls"))
+                    elif text != str(want):
+                        problems.append(("pot-value", f"{p['name']}: third element of the comprehension printed {text}, ADC tape value {want}"))
+                elif text == f"@A2:{p['name']}":
                     waiting = "second"
                 elif text == f"@A:{p['name']}":
                     waiting = True
